@@ -166,6 +166,7 @@ class RandomStub:
         e = E()
         if not all(isinstance(x, str) for x in seq):
             raise Unsupported("random.choice over non-strings")
+        self.w.choice_sets.append(list(seq))
         r, new = self.w.env.draw(self.w, "choice", lambda: e.sym_str("rchoice"))
         member = z3.Or(*[r.z == Z(x) for x in seq])
         if new:
@@ -225,6 +226,7 @@ class SymWorld:
         self.clock = Clock(self)
         self.random = RandomStub(self)
         self.fresh_ids = []
+        self.choice_sets = []     # the candidate lists handed to random.choice, in call order
         self.bundles = []
         self.conns = []
         self.phase = "setup"
@@ -648,6 +650,15 @@ def inv_db_clauses(snap):
     c["np_side_in_mb"] = forall(ns, lambda r: exists(np_, lambda n: z3.And(
         n.v["id"] == r.v["nameplates_id"],
         exists(ms, lambda s: z3.And(s.v["mailbox_id"] == n.v["mailbox_id"], s.v["side"] == r.v["side"])))))
+    # columns the server reads without a NULL test (arithmetic on `updated`, truth of `claimed`/`opened`,
+    # equality joins on the rest); nullable by design: mailbox_sides.mood, nameplates.request_id, messages.msg_id
+    need = {"mailboxes": ("app_id", "id", "updated", "for_nameplate"),
+            "nameplates": ("id", "app_id", "name", "mailbox_id"),
+            "nameplate_sides": ("nameplates_id", "claimed", "side", "added"),
+            "mailbox_sides": ("mailbox_id", "opened", "side", "added"),
+            "messages": ("app_id", "mailbox_id", "side", "phase", "body", "server_rx")}
+    c["cols_not_null"] = z3.And(*[forall(_rows(snap, t), lambda r, cs=cs: z3.And(*[z3.Not(r.n[k]) for k in cs if k in r.n]))
+                                  for t, cs in need.items()])
     return c
 
 
@@ -655,9 +666,9 @@ PROPERTY_CLAUSES = ["uniq_mailbox_id", "uniq_nameplate_name", "uniq_nameplate_id
                     "uniq_nameplate_mailbox", "uniq_nameplate_side", "uniq_mailbox_side",
                     "npid_below_counter", "np_mailbox", "fk_nameplate_side", "fk_mailbox_side",
                     "msg_mailbox"]
-SUPPORT_CLAUSES = ["np_has_claim", "mb_has_open", "np_side_in_mb"]
+SUPPORT_CLAUSES = ["np_has_claim", "mb_has_open", "np_side_in_mb", "cols_not_null"]
 # what every *committed* state satisfies, including the ones between the commits of one operation
-CRASH_CLAUSES = PROPERTY_CLAUSES + ["np_has_side"]
+CRASH_CLAUSES = PROPERTY_CLAUSES + ["np_has_side", "cols_not_null"]
 
 
 def slot_unchanged(a, b):
